@@ -711,8 +711,12 @@ fn generate_scalars(a: &Args) -> i32 {
                 let text = if rng.chance(1, 2) { format!("--- {tag}{body}\n") } else { format!("k: {tag}{body}\n") };
                 let in_map = text.starts_with("k:");
                 let (items, nev, _) = crate::pump::items_tokens(&text);
-                for _ in 0..per {
-                    let t0 = rng.pick(&targets).clone();
+                // plain untagged scalars meet EVERY target (the interpretation table of the property); other styles and
+                // tags meet a random sample of targets
+                let exhaustive = style == 0 && tag.is_empty();
+                let rounds = if exhaustive { targets.len() } else { per };
+                for ri in 0..rounds {
+                    let t0 = if exhaustive { targets[ri].clone() } else { rng.pick(&targets).clone() };
                     let ty = if in_map { Ty::Struct(vec![("k", t0)], false) } else { t0 };
                     let cfg = Cfg { dup: 0, legacy_octal: rng.chance(1, 2), strict_bool: rng.chance(1, 2), ignore_binary: rng.chance(1, 2), no_schema: rng.chance(1, 2),
                                     budget: None, limits: AliasLimits::default() };
